@@ -252,3 +252,47 @@ func oracleJSON(b []byte) string {
 		toks = append(toks, EntityToken(e))
 	}
 }
+
+// One: one rendered line/entry with the offsets a truncation generator needs.
+type One struct {
+	Bytes    []byte
+	LeadLen  int // length of the leading layout blanks
+	BodyLen  int
+	CloseIdx int // header line: index of the closing bracket
+}
+
+// GenOneSized: one uripost (withURI) / raw entry: "size [uri] [tag]" LF body.
+func GenOneSized(r *vh.Rand, withURI bool) (Line, One) {
+	var l Line
+	if withURI {
+		l = Line{Kind: 'R', A: genURI(r), B: r.Pick(tagPool), Body: genBody(r)}
+	} else {
+		l = Line{Kind: 'R', B: r.Pick(tagPool), Body: genRawRequest(r)}
+	}
+	genLayout(r, &l)
+	return l, One{Bytes: RenderSized([]Line{l}, true, withURI), LeadLen: len(l.Lead), BodyLen: len(l.Body)}
+}
+
+// GenOneHeaderLine: one "[key: value]" line of a uri file.
+func GenOneHeaderLine(r *vh.Rand) One {
+	l := genHeader(r)
+	b := RenderURI([]Line{l}, true)
+	text := l.Lead + headerText(l)
+	return One{Bytes: b, LeadLen: len(l.Lead), CloseIdx: len(text) - 1}
+}
+
+// GenJSONStream: entities one per line (compact, final newline) + one more compact object.
+func GenJSONStream(r *vh.Rand) (good []byte, toks string, extra []byte) {
+	n := r.Range(0, 5)
+	var ts []string
+	var b bytes.Buffer
+	for i := 0; i < n; i++ {
+		e := genEntity(r)
+		ts = append(ts, EntityToken(e))
+		j, _ := json.Marshal(e)
+		b.Write(j)
+		b.WriteByte('\n')
+	}
+	x, _ := json.Marshal(genEntity(r))
+	return b.Bytes(), strings.Join(ts, " "), x
+}
